@@ -13,6 +13,7 @@ ENGINES["C06"] = "engine_market"
 ENGINES["C12"] = "engine_clock"
 ENGINES["C13"] = "engine_clock"
 ENGINES["C16"] = "engine_signals"
+ENGINES["C17"] = "engine_stats"
 ENGINES["C10"] = "engine_sizer"
 ENGINES["C11"] = "engine_sizer"
 
